@@ -85,9 +85,25 @@ def r1_metrics(ctx):
     miss = sorted(set(METRICS) - seen)
     ctx.check('R1.metric-table', f'{site(pp)} all metrics', not miss, f'{pp.qual}|missing|{",".join(miss)}', f'metrics {miss} are no longer reported')
     gp = repo.func(RQ, 'get_penalty_from_receiver')
-    txt = ast.unparse(gp.node)
-    ok = 'receiver.penalties' in txt and 'round(' in txt
-    ctx.check('R1.metric-table', site(gp), ok, key(gp, 'penalty'), 'penalties are not read (rounded) from the receiver\'s penalties table')
+    from ..pattern import find as _pf
+    R_, I_ = gp.params[0], gp.params[1]
+    # the reported figure is the mean over ALL channels of the receiver's penalty (rounded); an infinite mean (any channel out of
+    # range) is reported as "Infinity"; an impairment without table as 'not evaluated'
+    vals = _pf(f'round(mean({R_}.penalties[{I_}]), 2)', gp.node)
+    ok = len(vals) == 1
+    if ok:
+        st = stmt_of(gp, vals[0][0])
+        pv = st.targets[0].id if isinstance(st, ast.Assign) and isinstance(st.targets[0], ast.Name) else None
+        rets = [n for n in walk_no_nested(gp.node) if isinstance(n, ast.Return)]
+        kinds = sorted(ast.unparse(r.value) for r in rets)
+        inf_if = [n for n in walk_no_nested(gp.node) if isinstance(n, ast.If) and ast.unparse(n.test) in (f'isinf({pv})', f'math.isinf({pv})', f'{pv} == inf')]
+        ok = pv is not None and kinds == sorted(["'Infinity'", "'not evaluated'", pv]) and len(inf_if) == 1 and \
+            any(isinstance(x, ast.Return) and ast.unparse(x.value) == "'Infinity'" for x in inf_if[0].body)
+        guard = [n for n in walk_no_nested(gp.node) if isinstance(n, ast.If) and ast.unparse(n.test) == f'{I_} in {R_}.penalties']
+        ok = ok and len(guard) == 1
+    ctx.check('R1.metric-table', site(gp), ok, key(gp, 'penalty'),
+              'the reported penalty is not round(mean(all channels of the receiver penalty), 2) with "Infinity" for an infinite mean and '
+              "'not evaluated' without a table: a blocked request could report a small finite penalty")
     ctx.need('R1.metric-table', 13)
 
 
